@@ -48,7 +48,7 @@ def generate(ctx):
                "inplace": rng.random() < 0.5, "tc": round(u(0.4, 50.0), 3) if cont else rng.choice([2.0, 5.0, 20.0, 0.7]),
                "amp": round(rng.choice([-1, 1]) * u(0.01, 3.0), 3) if cont else rng.choice([1.0, 0.5, -1.0, 2.5, -0.25]),   # documented: nonzero
                "scale": round(u(-2.0, 2.5), 3) if cont else rng.choice([1.0, -0.5, 0.0, 2.0]),
-               "obs": rng.choice(["bool", "real"]), "obs_dtype": rng.choice([None, "bool", "int64", "float32"]), "caller_reuses_buffer": rng.random() < 0.4,
+               "obs": rng.choice(["bool", "real"]), "obs_dtype": rng.choice([None, "bool", "int64", "float32"]), "caller_reuses_buffer": rng.random() < 0.4, "zero_contribution": rng.random() < 0.5,
                "tolerance": rng.choice([None, 0.1, 0.5, 0.25]), "target": rng.choice([1.0, 0.0, 2.5]),
                "initial": rng.choice(["inf", "zero", "nan"]), "alpha": round(u(0.0, 1.0), 4) if cont else rng.choice([0.0, 0.1, 0.5, 0.9, 1.0]),
                "p": rng.choice([0.1, 0.3, 0.6, 1.0, 0.0]), "shape": list(rng.choice([(3,), (2, 2), (1,), (2, 1, 2)])),
@@ -227,6 +227,13 @@ def _reducer(ctx, desc):
                 x = np.where(g.random(shape) < desc["p"], g.uniform(0.6, 3.0, size=shape), g.uniform(-1.0, 0.4, size=shape))
             else:
                 x = g.normal(size=shape) * 2
+        if desc.get("zero_contribution") and desc["scale"] not in (0, 0.0) and (kind.startswith("scaled") or cond_kind):
+            # a matching event whose contribution scale * h + amplitude is exactly zero is still an event (it resets a nearest
+            # trace to 0, adds 0 to a cumulative one)
+            z = -desc["amp"] / desc["scale"]
+            if cond_kind or z > 0.5:
+                x = np.where(g.random(shape) < 0.3, z, x)
+                ctx.count("observations_with_zero_contribution_events")
         c = (g.random(shape) < desc["p"]) if cond_kind else None
         return x, c
 
